@@ -224,6 +224,21 @@ Next ==
   \/ DiscardAtBottom \/ BailAtEnd \/ NukeUnderErrorTop \/ PushErrorSym \/ PopState
 
 ----------------------------------------------------------------------------
+(* C19: can token type X be shifted from the configuration whose state stack is `stack`? *)
+(* (run the reductions the tables prescribe for lookahead X until a shift or an error)  *)
+RedStack(stack, p) ==
+  LET ss == SubSeq(stack, 1, Len(stack) - Len(Prods[p].rhs))
+  IN Append(ss, Goto[Last(ss) + 1][Prods[p].name])
+
+RECURSIVE ShiftableFrom(_, _)
+ShiftableFrom(stack, X) ==
+  LET s == Last(stack) IN
+  IF Defaulted[s + 1] # 0 THEN ShiftableFrom(RedStack(stack, -Defaulted[s + 1]), X)
+  ELSE IF X \notin DOMAIN Action[s + 1] THEN FALSE
+  ELSE LET a == Action[s + 1][X] IN
+       IF a >= 0 THEN TRUE ELSE ShiftableFrom(RedStack(stack, -a), X)
+
+----------------------------------------------------------------------------
 (* Table-free derivability: CYK-style least fixpoint over items <<sym, i, j>>  *)
 (* meaning  sym =>* input[i+1 .. j].  Independent of Action/Goto.             *)
 Terminals == {input[i] : i \in 1..Len(input)}
